@@ -55,7 +55,9 @@ func FreePort() int {
 }
 
 // Quiet logger
-func NullLogger() hclog.Logger { return hclog.New(&hclog.LoggerOptions{Level: hclog.Off, Output: io.Discard}) }
+func NullLogger() hclog.Logger {
+	return hclog.New(&hclog.LoggerOptions{Level: hclog.Off, Output: io.Discard})
+}
 
 // Server is a running gldap server
 type Server struct {
